@@ -58,8 +58,10 @@ type RunConfig struct {
 	Legacy24  bool `json:"legacy24,omitempty"`
 	// Avoid: constraints tied to recorded known findings (see known_findings.json)
 	Avoid []string `json:"avoid,omitempty"`
-	World *World   `json:"world"`
-	Ops   []Op     `json:"ops"`
+	// IgnoreAvoid: constraints a profile lifts on purpose (e.g. static worlds, where the recorded trigger needs a history)
+	IgnoreAvoid []string `json:"ignore_avoid,omitempty"`
+	World       *World   `json:"world"`
+	Ops         []Op     `json:"ops"`
 }
 
 // Run is the live state of one execution.
@@ -104,6 +106,8 @@ type Run struct {
 	lastFinish          time.Time
 	curFullItem         bool
 	thisFullItem        bool
+	inReconcile         bool
+	midRecSecret        bool
 	startupReloads      int
 	startupCmds         int
 	lastFaultAt         time.Time
